@@ -35,8 +35,8 @@ type emitCell struct {
 	Kind     string // basic fixed dynamic object inline match length checksum
 	Typ      string // canonical scalar type for basic / length / checksum
 	Repeat   bool
-	FieldPad bool // fixed string with its own padding
-	LenAttr  bool // the field is the target of a length-of field
+	FieldPad bool   // fixed string with its own padding
+	LenAttr  bool   // the field is the target of a length-of field
 	Single   bool   // match table with a single target packet
 	Alias    string // the type is spelled like this in the model (Typ is its canonical name)
 }
@@ -140,9 +140,9 @@ func (c emitCell) spelled() string {
 
 type cellObjs struct {
 	model, cfg, cfgPad, pkt, field, attr, fieldPad *Term
-	keyField, lenField                               *Term
-	pairs                                            []*Term
-	gGo, gPy                                         Value
+	keyField, lenField                             *Term
+	pairs                                          []*Term
+	gGo, gPy                                       Value
 }
 
 func (e *Engine) mtype(name string) types.Type { return e.namedType(modelPkgPath, name) }
@@ -193,7 +193,7 @@ func (e *Engine) simplePacket(s *State, name string, pm *Term) *Term {
 	pT, fT := e.mtype("Packet"), e.mtype("Field")
 	p := e.newObj(s, pT)
 	e.setF(s, p, pT, "Name", Str(name))
-	f := e.basicField(s, Str("v"), "u8")
+	f := e.basicField(s, Str(strings.ToLower(name)), "u8") // as in cellDSL: packet A { u8 a, }
 	e.setF(s, p, pT, "Fields", e.sliceOf(s, types.NewPointer(fT), Value{f})...)
 	mt := types.NewMap(types.Typ[types.String], types.NewPointer(pT))
 	e.mapStore(s, mt, pm, Value{Str(name)}, Value{p})
@@ -396,10 +396,10 @@ type emitPath struct {
 }
 
 type emitRun struct {
-	entry emitEntry
-	cell  emitCell
-	paths []emitPath
-	err   string
+	entry  emitEntry
+	cell   emitCell
+	paths  []emitPath
+	err    string
 	pruned bool
 }
 
